@@ -224,6 +224,8 @@ unsafe fn drop_cycle<T>(cycle: HashMap<Link<T>, usize>) {
         "cactusref detected orphaned cycle with {} objects",
         cycle.len()
     );
+    #[cfg(cactusref_verif)]
+    crate::verif::emit(crate::verif::GROUP, cycle.len());
     // Iterate over all the nodes in the cycle, bust all of the links. All nodes
     // in the cycle are reachable by other nodes in the cycle, so removing
     // all cycle-internal links won't result in a leak.
